@@ -145,7 +145,7 @@ package logx
 //@   prop C19
 //@   opaque write
 //@   loop 1 iteration-ensures [each-record-written-once] calls(on("recv", l.channel)) == 1 && calls(l.write, ret(on("recv", l.channel))) == 1 && calls(write) == 1
-//@   ensures [ends-on-done-and-signs-off] calls(on("recv", l.done)) == 1 && calls("wg.Done") == 1 && calls(write) == 0
+//@   ensures [ends-on-done-and-signs-off] tail(calls(on("recv", l.done)) == 1 && calls(write) == 0) && calls("wg.Done") == 1
 // Close: once; stops the worker, waits for it, then syncs and closes the file (a sync error is returned and the
 // file left open for the caller to see).
 //@ func (*RotateLogger).Close
